@@ -277,6 +277,32 @@ def bounded_cases(seed, thorough=False):
             tail = bool(numpy.allclose(numpy.asarray(vcum, dtype=float), V[1:k + 1]))
             yield {'name': f"tail_and_monotone|{model}|{geom}|{matname}", 'ok': mono and tail,
                    'detail': '' if (mono and tail) else f"widths non-decreasing: {mono}; cumulative == liquid volume: {tail}"}
+            if matname != mats[0]:
+                continue
+            # the distribution is the finite-difference derivative on every interval, also where the loading is still rising at
+            # the top of the window (Cheng-Yang widths then come back down: listed finding; the derivative is negative there, not 0).
+            # Checked on what is returned alone: a_i = (w_i + w_i+1) / 2 and s_i = dV_i / dist_i = w_i+1 - w_i give
+            # a_i+1 - a_i = (s_i + s_i+1) / 2 for consecutive intervals
+            p2 = numpy.geomspace(1e-7, 0.2, 40)
+            l2 = numpy.linspace(1.0, 10.0, 40)
+            try:
+                a, dist, vcum = f(p2, l2, 77.355, geom, ADS, mat, use_cy=model.endswith('CY'))
+                a, dist = numpy.asarray(a, dtype=float), numpy.asarray(dist, dtype=float)
+                dV = numpy.diff(l2 * ADS['adsorbate_molar_mass'] / ADS['liquid_density'] / 1000)[:len(dist)]
+                probs = []
+                zero = [i for i in range(len(dist)) if dist[i] == 0 and dV[i] != 0]
+                if zero:
+                    probs.append(f"distribution 0 on {len(zero)} interval(s) over which {dV[zero[0]]:.4g} cm3/g were adsorbed (first: interval {zero[0]})")
+                else:
+                    with numpy.errstate(all='ignore'):
+                        st = dV / dist
+                    lhs, rhs = numpy.diff(a), (st[:-1] + st[1:]) / 2
+                    badi = [i for i in range(len(lhs)) if numpy.isfinite(rhs[i]) and not abs(lhs[i] - rhs[i]) <= 1e-6 * max(abs(lhs[i]), abs(rhs[i]), 1e-3)]
+                    if badi:
+                        probs.append(f"intervals {badi[:4]}: the width steps implied by dV/dist do not add up to the reported widths ({lhs[badi[0]]:.6g} vs {rhs[badi[0]]:.6g})")
+            except Exception as exc:
+                probs = [f"{type(exc).__name__}: {exc}"[:150]]
+            yield {'name': f"distribution_is_finite_difference_derivative|{model}|{geom}|{matname}", 'ok': not probs, 'detail': '; '.join(probs)}
 
 
 def _entry_point_sequence():
